@@ -610,6 +610,11 @@ func runCheck(c *Config) int {
 			ok, why := compareWitness(w, out)
 			if ok {
 				validated++
+			} else if strings.Contains(why, "native run panicked") && (strings.Contains(why, "out of bound") || strings.Contains(why, "overflow")) {
+				// the solver picked a witness beyond sdkmath's 256 / 315-bit range (the engine's integers are unbounded;
+				// bit-length overflow panics are outside every claim): the witness is not usable for validating the models,
+				// which is not a disagreement between engine and implementation
+				notes = append(notes, fmt.Sprintf("witness of %s lies outside sdkmath's bit-length range natively (%s): not used for validation", r.Spec.Name, why))
 			} else {
 				mismatches++
 				notes = append(notes, fmt.Sprintf("witness mismatch in %s: %s", r.Spec.Name, why))
